@@ -13,6 +13,7 @@ from mc.core import Node, problem
 from mc.ruleinfo import MetapypeRuleError, ValidationError
 
 from metapype.eml import validate
+from metapype.eml import rule as mrule
 from metapype.model import metapype_io
 
 LEVEL = "exploration"
@@ -84,6 +85,16 @@ def check_tree(root, case, acc=None, per_node=False):
             acc.outcome(label + (":ok" if ff is None else ":" + type(ff).__name__))
     run(validate.tree, root, "tree")
     run(validate.node, root, "node")
+    # one Rule object used for several validations (an editor keeps the rule of the element it is showing): same verdicts
+    try:
+        r = mrule.get_rule(root.name)
+    except Exception:  # noqa  (unknown names: covered by the calls above)
+        r = None
+    if r is not None:
+        def reused(t, errs=None):
+            return r.validate_rule(t, errs)
+        run(reused, root, "reused-rule")
+        run(reused, root, "reused-rule")
     if per_node:
         for n in nodes[1:]:
             run(validate.node, n, "node")
